@@ -81,7 +81,12 @@ func genOp(g *hx.Gen) string {
 				alias = 1
 				g.Stat("xks-alias")
 			}
-			return fmt.Sprintf("xks key=%s ctr=%s alias=%d src=%s", hx.Hex(r.Bytes(32)), hx.Hex(ctr[:]), alias, hx.Hex(r.Bytes(pickLen(r))))
+			n := pickLen(r)
+			g.Stat("f-xks(asm-vs-portable-vs-model)")
+			if n >= 256 {
+				g.Stat("xks-len>=256(asm-4-block-path)")
+			}
+			return fmt.Sprintf("xks key=%s ctr=%s alias=%d src=%s", hx.Hex(r.Bytes(32)), hx.Hex(ctr[:]), alias, hx.Hex(r.Bytes(n)))
 		case c < 15:
 			nl := 8
 			if r.Bool() {
@@ -105,6 +110,7 @@ func genOp(g *hx.Gen) string {
 				cc = r.Bytes(16)
 				g.Stat("hs-random-constant")
 			}
+			g.Stat("f-hs")
 			return fmt.Sprintf("hs key=%s in=%s c=%s", hx.Hex(r.Bytes(32)), hx.Hex(r.Bytes(16)), hx.Hex(cc))
 		default:
 			in := r.Bytes(64)
@@ -115,6 +121,7 @@ func genOp(g *hx.Gen) string {
 			if r.Bool() {
 				alias = 1
 			}
+			g.Stat("f-c208")
 			return fmt.Sprintf("c208 alias=%d in=%s", alias, hx.Hex(in))
 		}
 	}
